@@ -504,6 +504,11 @@ inline void TotalOrderSort(py::list& list) {  // NOLINT[runtime/references]
     } catch (py::error_already_set& ex1) {
         if (ex1.matches(PyExc_TypeError)) [[likely]] {
             // Found incomparable keys (e.g. `int` vs. `str`, or user-defined types).
+            // The failed sort may have partially permuted the list: start over from the original
+            // order (the result of sorting partially ordered keys depends on the initial order).
+            if (PyList_SetSlice(list.ptr(), 0, ListGetSize(list), original.ptr()) < 0) [[unlikely]] {
+                throw py::error_already_set();
+            }
             try {
                 // Sort with `(f'{obj.__class__.__module__}.{obj.__class__.__qualname__}', obj)`
                 const auto sort_key_fn = py::cpp_function([](const py::object& obj) -> py::tuple {
